@@ -372,3 +372,7 @@ func (cx *ctx) lens(r *h.Rand, nSmall, nBig int) []int {
 	}
 	return ls
 }
+
+func verifhookWriter(key []byte, dst io.Writer) (*verifhook.StreamWriter, error) {
+	return verifhook.NewStreamWriter(key, dst)
+}
